@@ -97,6 +97,64 @@ def tf_rename_some_locals(root):
     _rename_all_locals(root, lambda name: sum(map(ord, name)) % 2 == 0)
 
 
+_CFLIP = {ast.Lt: ast.Gt, ast.Gt: ast.Lt, ast.LtE: ast.GtE, ast.GtE: ast.LtE}
+
+
+class _FlipCompare(ast.NodeTransformer):
+    def visit_Compare(self, n):
+        self.generic_visit(n)
+        if len(n.ops) == 1 and type(n.ops[0]) in _CFLIP and isinstance(n.comparators[0], (ast.Constant, ast.Name)) \
+                and isinstance(n.left, (ast.Name, ast.Constant, ast.Attribute)):
+            return ast.Compare(left=n.comparators[0], ops=[_CFLIP[type(n.ops[0])]()], comparators=[n.left])
+        return n
+
+
+class _ExpandAug(ast.NodeTransformer):
+    def visit_AugAssign(self, n):
+        if isinstance(n.target, ast.Name) and isinstance(n.op, (ast.Add, ast.Sub)) and isinstance(n.value, ast.Constant) \
+                and type(n.value.value) is int:
+            return ast.Assign(targets=[ast.Name(id=n.target.id, ctx=ast.Store())],
+                              value=ast.BinOp(left=ast.Name(id=n.target.id, ctx=ast.Load()), op=n.op, right=n.value),
+                              lineno=n.lineno)
+        return n
+
+
+class _SwapIf(ast.NodeTransformer):
+    def visit_If(self, n):
+        self.generic_visit(n)
+        if n.orelse and not (len(n.orelse) == 1 and isinstance(n.orelse[0], ast.If)) and isinstance(n.test, ast.UnaryOp) \
+                and isinstance(n.test.op, ast.Not):
+            return ast.If(test=n.test.operand, body=n.orelse, orelse=n.body)
+        return n
+
+
+def _rewrite_all(root, cls):
+    for d, ds, fs in os.walk(root):
+        for f in fs:
+            if f.endswith('.py'):
+                p = os.path.join(d, f)
+                with open(p) as fh:
+                    tree = cls().visit(ast.parse(fh.read()))
+                ast.fix_missing_locations(tree)
+                with open(p, 'w') as fh:
+                    fh.write(ast.unparse(tree) + '\n')
+
+
+def tf_flip_compare(root):
+    """`a < b` written `b > a` wherever both operands are names, attributes or literals."""
+    _rewrite_all(root, _FlipCompare)
+
+
+def tf_expand_aug(root):
+    """`x += k` written `x = x + k` for integer literals k."""
+    _rewrite_all(root, _ExpandAug)
+
+
+def tf_swap_if(root):
+    """`if not c: A else: B` written `if c: B else: A`."""
+    _rewrite_all(root, _SwapIf)
+
+
 class _AddLog(ast.NodeTransformer):
     def visit_If(self, node):
         self.generic_visit(node)
@@ -137,6 +195,9 @@ T('S-unparse', tf_unparse_all)
 T('S-shift-lines', tf_shift_lines)
 T('S-rename-locals', tf_rename_locals)
 T('S-rename-some', tf_rename_some_locals)
+T('S-flip-compare', tf_flip_compare)
+T('S-expand-aug', tf_expand_aug)
+T('S-swap-if', tf_swap_if)
 T('S-add-log', tf_add_log)
 T('S-respell', tf_respell_literals)
 
